@@ -30,7 +30,8 @@ def cfgs(ctx):
                  F.L(("a", "b"), ("b", "c"), ("c", "d"), ("a", "d")), F.L(("a", "b"), ("b", "c"), ("a", "c"), ("c", "d")),
                  F.L(("a", "b"), ("b", "c"), ("c", "d"), ("a", "d"), ("a", "c")), F.L(*k4)]
         out.append(F.base("c11-stable4", F.A4, F.L(*k4), initups=tops4, exits=[[]], routeids=[], announcers=["a"], exp=1, dup=1))
-        out.append(F.base("c11-dyn3", F.A3, t3, initups=[l2], exits=[["a"]], announcers=["a"], conn=2, disc=1, exp=1))
+        out.append(F.base("c11-dyn3", F.A3, t3, initups=[l2], exits=[["a"]], announcers=["a"], conn=2, disc=1, exp=1, replay=False))
+        out.append(F.base("c11-dyn3r", F.A3, t3, initups=[l3], exits=[["a"]], announcers=["a"], conn=1, disc=1))
     return out
 
 
